@@ -151,7 +151,7 @@ static std::vector<KnownDefect> KNOWN_DEFECTS = {
      "fragment.appendChild/insertBefore/replaceChild(fragment itself) with a non-empty fragment never returns: DOMParentNode::insertBefore does not "
      "reject newChild==this (the ancestor walk starts above this) and then moves the fragment's children into itself forever",
      [](const RDom& d, const Opn& o) { return (o.code == OP_APPEND || o.code == OP_INSERT || o.code == OP_REPLACE) && o.a == o.t && d.n[o.t].type == FRAG && !d.n[o.t].kids.empty() &&
-                                             !(o.code != OP_APPEND && o.b != -1 && d.n[o.b].parent != o.t) && !(o.code == OP_REPLACE && o.b == -1); },
+                                             !(o.code != OP_APPEND && o.b != -1 && d.n[o.b].parent != o.t); },
      mkOp(OP_APPEND, 8, 8)},
     {"document-null-child-crash",
      "document.appendChild/insertBefore(null, ..) and document.replaceChild(.., null) dereference the null pointer (DOMDocumentImpl::insertBefore / "
@@ -163,6 +163,11 @@ static std::vector<KnownDefect> KNOWN_DEFECTS = {
      "(DOMCharacterDataImpl::substringData does not clamp count to length-offset)",
      [](const RDom&, const Opn& o) { return o.code == OP_SUBSTRING && o.w == 3; },
      mkOp(OP_SUBSTRING, 3, -1, -1, 0, 3)},
+    {"setTextContent-null-chardata-ub",
+     "Text/Comment.setTextContent(null) (documented as allowed: 'if the new string is not empty or null') reaches DOMBuffer::set(NULL) which calls "
+     "memcpy(dst, NULL, 0): undefined behaviour reported by UBSan (nonnull attribute), DOMStringPool.hpp DOMBuffer::set(const XMLCh*)",
+     [](const RDom& d, const Opn& o) { return o.code == OP_SETTEXT && o.v == 2 && (d.n[o.t].type == TEXT || d.n[o.t].type == COMMENT); },
+     mkOp(OP_SETTEXT, 3, -1, -1, 2)},
 };
 static const char* skipDefect(const RDom& d, const Opn& o) {
     for (auto& k : KNOWN_DEFECTS) if (k.active && k.match(d, o)) return k.id;
@@ -207,6 +212,16 @@ static std::string errSet(const Expect& e) {
     return s.empty() ? "success" : s;
 }
 static std::string keyOf(World& w) { KeyBuilder kb(w); return kb.build(N_ORIG); }
+static std::string firstDiff(const std::string& a, const std::string& b) {
+    size_t pa = 0, pb = 0;
+    while (pa < a.size() || pb < b.size()) {
+        size_t ea = a.find('\n', pa), eb = b.find('\n', pb);
+        std::string la = pa < a.size() ? a.substr(pa, ea - pa) : "<none>", lb = pb < b.size() ? b.substr(pb, eb - pb) : "<none>";
+        if (la != lb) return "before: " + la + " || after: " + lb;
+        pa = ea == std::string::npos ? a.size() : ea + 1; pb = eb == std::string::npos ? b.size() : eb + 1;
+    }
+    return "";
+}
 
 static void step(World& w, const std::string& key0, const Opn& op, Trans& tr) {
     Ref saved = w.ref;
@@ -224,12 +239,12 @@ static void step(World& w, const std::string& key0, const Opn& op, Trans& tr) {
             viol(opn + ":expected-" + tr.expected + ":observed-" + codeName(o.code), "");
             // still say whether the tree was left unchanged
             std::string k1 = keyOf(w);
-            tr.detail = (k1 == key0) ? "state unchanged" : "state CHANGED by the failing call";
+            tr.detail = (k1 == key0) ? "state unchanged" : "state CHANGED by the failing call: " + firstDiff(key0, k1);
             if (k1 != key0) tr.kind += "+state-changed";
             return;
         }
         std::string k1 = keyOf(w);
-        if (k1 != key0) { viol(opn + ":" + codeName(o.code) + "-raised-but-state-changed", "the call raised the specified exception but the canonical key differs"); return; }
+        if (k1 != key0) { viol(opn + ":" + codeName(o.code) + "-raised-but-state-changed", "the call raised the specified exception but the canonical key differs: " + firstDiff(key0, k1)); return; }
         tr.res = Trans::EXC_OK;
         return;
     }
@@ -289,7 +304,7 @@ static Sbx runOpSandboxed(const State& s, const Opn& op) {
         if (!replay(*w, s, &err)) return std::string("replay-failed ") + err;
         Outcome o; execImpl(*w, op, o);
         return std::string(o.code == 0 ? "returned" : codeName(o.code));
-    }, 3);
+    }, 2);
 }
 
 // ------------------------------------------------------------------------------------------------ exploration of one layer (runs inside Runner workers)
@@ -314,27 +329,41 @@ static FILE* side() {
 }
 static void opFields(FILE* f, const Opn& o) { fprintf(f, "\t%d\t%d\t%d\t%d\t%d\t%d", o.code, o.t, o.a, o.b, o.v, o.w); }
 
+static volatile uint32_t* g_prog = nullptr;   // shared: op index a case is executing (0xFFFFFFFF: done) -> locates the call that killed a worker
+enum { S_TRANS, S_SKIP, S_SAME, S_NEW, S_VIOL, S_REBUILD, S_EXC, S_OK = S_EXC + 20, S_REJ = S_OK + NOPS, S_N = S_REJ + NOPS };
+static std::string slotName(int i) {
+    switch (i) { case S_TRANS: return "transitions"; case S_SKIP: return "transitions_skipped_known_defect"; case S_SAME: return "t_success_same_state";
+                 case S_NEW: return "t_success_new_state"; case S_VIOL: return "t_discrepancy"; case S_REBUILD: return "world_rebuilds"; }
+    if (i >= S_REJ) return std::string("rejected:") + OpName[i - S_REJ];
+    if (i >= S_OK) return std::string("ok:") + OpName[i - S_OK];
+    return std::string("exc:") + codeName(i - S_EXC);
+}
+
 static void expandCase(uint64_t idx, Ctx& c) {
     const State& s = g_frontier[idx];
     FILE* sf = side();
+    auto note = [&](const std::string& k, uint64_t n) { if (sf) fprintf(sf, "K\t%s\t%llu\n", k.c_str(), (unsigned long long)n); c.count(k, n); };
     std::unique_ptr<World> w(new World());
     std::string err;
-    if (!replay(*w, s, &err)) { c.count("harness_replay_failed"); return; }
+    if (!replay(*w, s, &err)) { note("harness_replay_failed", 1); if (sf) fflush(sf); return; }
     std::string key0 = keyOf(*w);
-    if (!(hash128(key0) == s.h)) { c.count("harness_replay_key_mismatch"); return; }
+    if (!(hash128(key0) == s.h)) { note("harness_replay_key_mismatch", 1); if (sf) fflush(sf); return; }
     std::vector<Opn> ops;
     genOps(w->ref.d, ops);
-    uint64_t nExc[20] = {0}, nSame = 0, nNew = 0, nViol = 0, nSkip = 0, nRebuild = 0, perOpOk[NOPS] = {0}, perOpExc[NOPS] = {0};
+    uint64_t slot[S_N] = {0};
+    std::map<std::string, uint64_t> kindCount, skipCount;
     for (size_t i = 0; i < ops.size(); i++) {
         const Opn& op = ops[i];
-        if (const char* kd = skipDefect(w->ref.d, op)) { nSkip++; c.count(std::string("skipped_known_defect:") + kd); continue; }
+        if (const char* kd = skipDefect(w->ref.d, op)) { slot[S_SKIP]++; skipCount[kd]++; continue; }
+        if (g_prog && xv::g_worker >= 0) g_prog[idx] = (uint32_t)i;
         Trans tr;
         step(*w, key0, op, tr);
+        slot[S_TRANS]++;
         switch (tr.res) {
-        case Trans::EXC_OK: if (tr.exc > 0 && tr.exc < 20) nExc[tr.exc]++; perOpExc[op.code]++; break;
-        case Trans::SAME: nSame++; perOpOk[op.code]++; break;
+        case Trans::EXC_OK: if (tr.exc > 0 && tr.exc < 20) slot[S_EXC + tr.exc]++; slot[S_REJ + op.code]++; break;
+        case Trans::SAME: slot[S_SAME]++; slot[S_OK + op.code]++; break;
         case Trans::NEW: {
-            nNew++; perOpOk[op.code]++;
+            slot[S_NEW]++; slot[S_OK + op.code]++;
             H128 h = hash128(tr.key);
             if (!g_visited.count(h) && g_localNew.insert(h).second && sf) {
                 fprintf(sf, "S\t%s\t%llu\t%zu", hex128(h).c_str(), (unsigned long long)idx, i);
@@ -344,28 +373,28 @@ static void expandCase(uint64_t idx, Ctx& c) {
             break;
         }
         case Trans::VIOL:
-            nViol++;
-            c.count("discrepancy:" + tr.kind);
+            slot[S_VIOL]++;
+            kindCount[tr.kind]++;
             if (sf && g_localKinds.insert(tr.kind).second) { fprintf(sf, "V\t%s\t%llu\t%zu", tr.kind.c_str(), (unsigned long long)idx, i); opFields(sf, op); fputc('\n', sf); }
-            if (c.verbose) printf("  DISCREPANCY %s  %s  [%s]\n", opStr(w->ref.d, op).c_str(), tr.kind.c_str(), tr.detail.c_str());
+            if (c.verbose) printf("  DISCREPANCY %zu %s  %s  [%s]\n", i, opStr(w->ref.d, op).c_str(), tr.kind.c_str(), tr.detail.c_str());
             break;
         }
         if (tr.dirty && i + 1 < ops.size()) {
             w.reset(new World());
-            nRebuild++;
-            if (!replay(*w, s, &err)) { c.count("harness_replay_failed"); return; }
+            slot[S_REBUILD]++;
+            if (!replay(*w, s, &err)) { note("harness_replay_failed", 1); if (sf) fflush(sf); return; }
         }
     }
-    c.count("transitions", ops.size() - nSkip);
-    c.count("transitions_skipped_known_defect", nSkip);
-    c.count("t_exception_unchanged", 0);
-    for (int k = 1; k < 20; k++) if (nExc[k]) { c.count(std::string("exc:") + codeName(k), nExc[k]); c.count("t_exception_unchanged", nExc[k]); }
-    c.count("t_success_same_state", nSame);
-    c.count("t_success_new_state", nNew);
-    c.count("t_discrepancy", nViol);
-    c.count("world_rebuilds", nRebuild);
-    for (int k = 0; k < NOPS; k++) { if (perOpOk[k]) c.count(std::string("ok:") + OpName[k], perOpOk[k]); if (perOpExc[k]) c.count(std::string("rejected:") + OpName[k], perOpExc[k]); }
-    if (sf) fflush(sf);
+    if (g_prog && xv::g_worker >= 0) g_prog[idx] = 0xFFFFFFFFu;
+    if (sf) {
+        fputs("C", sf);
+        for (int k = 0; k < S_N; k++) fprintf(sf, "\t%llu", (unsigned long long)slot[k]);
+        fputc('\n', sf);
+        for (auto& kv : kindCount) fprintf(sf, "K\tdiscrepancy:%s\t%llu\n", kv.first.c_str(), (unsigned long long)kv.second);
+        for (auto& kv : skipCount) fprintf(sf, "K\tskipped_known_defect:%s\t%llu\n", kv.first.c_str(), (unsigned long long)kv.second);
+        fprintf(sf, "K\tstates_expanded\t1\n");
+        fflush(sf);
+    }
 }
 
 // ------------------------------------------------------------------------------------------------ tiny readers for the Runner's JSON
@@ -410,7 +439,7 @@ static void parseCrashes(const std::string& js, std::vector<std::pair<uint64_t, 
 // ------------------------------------------------------------------------------------------------ report pass
 struct Instance { State s; Opn op; size_t opIdx; int depth; std::string kind; uint64_t count = 0; uint64_t cs = 0; };
 static std::vector<Instance> g_report;                       // one per discrepancy kind (minimal instance)
-struct CrashCase { State s; std::string how; };
+struct CrashCase { State s; std::string how; uint32_t opIdx; };
 static std::vector<CrashCase> g_crashed;                     // frontier states whose expansion killed a worker
 static std::map<std::string, uint64_t> g_total;              // counters accumulated over all layers
 static std::vector<std::string> g_samples;
@@ -502,6 +531,7 @@ static void reportCase(uint64_t idx, Ctx& c) {
     if (idx == 0) {  // carries the counters and samples of the exploration into the result document
         for (auto& kv : g_total) if (kv.first != "evaluations" && kv.first.compare(0, 10, "violations") != 0 && kv.first != "crashes" && kv.first != "hangs" && kv.first != "slow_but_terminating") c.count(kv.first, kv.second);
         for (auto& s : g_samples) c.sample(s);
+        c.count("t_exception_unchanged", g_total["transitions"] - g_total["t_success_same_state"] - g_total["t_success_new_state"] - g_total["t_discrepancy"]);
         if (g_total["transitions"] > g_reportTotal) c.count("evaluations", g_total["transitions"] - g_reportTotal);   // evaluations := executed transitions
         return;
     }
@@ -522,21 +552,16 @@ static void reportCase(uint64_t idx, Ctx& c) {
     if (k < g_report.size()) { reportInstance(g_report[k].s, g_report[k].op, g_report[k].opIdx, g_report[k].kind, g_report[k].count, c); return; }
     k -= g_report.size();
     if (k < g_crashed.size()) {
-        // find the operation that kills the process: every transition of the state in its own sandbox until one dies
+        // the worker expanding this state died; the shared progress word names the call it was executing
         const State& s = g_crashed[k].s;
-        World w; std::string err;
-        if (!replay(w, s, &err)) { c.violation("harness-replay-failed", "\"history\":" + histJson(s)); return; }
-        std::vector<Opn> ops; genOps(w.ref.d, ops);
-        for (size_t i = 0; i < ops.size(); i++) {
-            if (skipDefect(w.ref.d, ops[i])) continue;
-            Sbx r = runOpSandboxed(s, ops[i]);
-            if (r.status != 0) {
-                c.violation(std::string(r.status == 2 ? "hang:" : "crash:") + OpName[ops[i].code], "\"history\":" + histJson(s) + ",\"history_indices\":" + jstr(idxStr(s.idx, (int)i)) + ",\"call\":" + jstr(opStr(w.ref.d, ops[i])) +
-                                                                                                     ",\"note\":\"the remaining transitions of this state were not explored\"");
-                return;
-            }
-        }
-        c.violation("crash:unlocated", "\"history\":" + histJson(s) + ",\"how\":" + jstr(g_crashed[k].how));
+        State pre; Ref ref;
+        if (!stateFromIndices(s.idx, s.idx.size(), pre, ref)) { c.violation("harness-replay-failed", "\"history\":" + histJson(s)); return; }
+        std::vector<Opn> ops; genOps(ref.d, ops);
+        uint32_t oi = g_crashed[k].opIdx;
+        std::string call = oi < ops.size() ? opStr(ref.d, ops[oi]) : std::string("<unknown>");
+        std::string opn = oi < ops.size() ? OpName[ops[oi].code] : "unlocated";
+        c.violation((g_crashed[k].how == "hang" ? "hang:" : "crash:") + opn, "\"history\":" + histJson(s) + ",\"history_indices\":" + jstr(idxStr(s.idx, (int)oi)) + ",\"call\":" + jstr(call) +
+                                                                               ",\"how\":" + jstr(g_crashed[k].how) + ",\"note\":\"the remaining transitions of this state were not explored\"");
     }
 }
 
@@ -578,6 +603,18 @@ int main(int argc, char** argv) {
             Sbx r = runOpSandboxed(s0, ops[i]);
             if (r.status != 0) printf("%s %zu %s\n", r.status == 2 ? "HANG " : "CRASH", i, opStr(ref.d, ops[i]).c_str());
         }
+        return 0;
+    }
+    if (a.has("expand")) {  // development aid: expand one state in-process, print every discrepancy
+        std::string hs = a.str("expand");
+        std::vector<uint16_t> h = hs == "1" || hs == "-" ? std::vector<uint16_t>() : parseIdxList(hs);
+        State s; Ref ref;
+        if (!stateFromIndices(h, h.size(), s, ref)) { printf("bad history\n"); return 2; }
+        { World w; std::string err; if (!replay(w, s, &err)) { printf("replay failed %s\n", err.c_str()); return 2; } s.h = hash128(keyOf(w)); }
+        g_frontier.push_back(s);
+        Ctx c; c.verbose = true;
+        expandCase(0, c);
+        for (auto& kv : c.cnt) printf("%s %llu\n", kv.first.c_str(), (unsigned long long)kv.second);
         return 0;
     }
     if (a.has("history")) {  // verbose replay of an explicit history (last index = the call under test)
@@ -636,18 +673,22 @@ int main(int argc, char** argv) {
         if (deadline > 0) R.deadline_s = std::max(1.0, deadline - (now - t0));
         R.describe = [](uint64_t i) { return "{\"history\":" + histJson(g_frontier[i]) + "}"; };
         for (int w = 0; w < 64; w++) unlink((g_sideBase + ".w" + std::to_string(w)).c_str());
+        size_t progBytes = (g_frontier.size() + 1) * sizeof(uint32_t);
+        g_prog = (volatile uint32_t*)mmap(nullptr, progBytes, PROT_READ | PROT_WRITE, MAP_SHARED | MAP_ANONYMOUS, -1, 0);
+        for (size_t i = 0; i < g_frontier.size(); i++) g_prog[i] = 0xFFFFFFFEu;
         int rc = R.run();
         if (rc < 0 && rc != -2) { fprintf(stderr, "runner failed\n"); return 2; }
         std::string js = slurp(lout);
         unlink(lout.c_str());
         std::map<std::string, uint64_t> cnt;
         parseCounters(js, cnt);
-        for (auto& kv : cnt) g_total[kv.first] += kv.second;
-        g_total["layer" + std::to_string(layer) + "_states_expanded"] = g_frontier.size();
-        if (cnt.count("deadline_skipped") && cnt["deadline_skipped"]) deadlineHit = true;
+        g_total["layer" + std::to_string(layer) + "_frontier"] = g_frontier.size();
+        if (cnt.count("deadline_skipped") && cnt["deadline_skipped"]) { deadlineHit = true; g_total["deadline_skipped"] += cnt["deadline_skipped"]; }
         std::vector<std::pair<uint64_t, std::string>> crashes;
         parseCrashes(js, crashes);
-        for (auto& cr : crashes) if (cr.first < g_frontier.size() && g_crashed.size() < 20) g_crashed.push_back({g_frontier[cr.first], cr.second});
+        g_total["worker_deaths"] += crashes.size();
+        for (auto& cr : crashes) if (cr.first < g_frontier.size() && g_crashed.size() < 20) g_crashed.push_back({g_frontier[cr.first], cr.second, g_prog[cr.first]});
+        munmap((void*)g_prog, progBytes); g_prog = nullptr;
         // merge side files
         struct Succ { uint64_t cs; size_t oi; Opn op; };
         std::map<H128, Succ> succ;
@@ -660,6 +701,8 @@ int main(int argc, char** argv) {
                 if (line[n - 1] != '\n') break;  // partial line of a killed worker
                 line[n - 1] = 0;
                 std::vector<std::string> fl; { char* sp = line; char* tk; while ((tk = strsep(&sp, "\t")) != nullptr) fl.push_back(tk); }
+                if (fl[0] == "C") { for (int k = 0; k < S_N && k + 1 < (int)fl.size(); k++) { uint64_t v = strtoull(fl[k + 1].c_str(), nullptr, 10); if (v) g_total[slotName(k)] += v; } continue; }
+                if (fl[0] == "K" && fl.size() >= 3) { g_total[fl[1]] += strtoull(fl[2].c_str(), nullptr, 10); continue; }
                 if (fl.size() < 4) continue;
                 auto rdOp = [&](size_t at, Opn& o) { if (fl.size() < at + 6) return false; o.code = atoi(fl[at].c_str()); o.t = atoi(fl[at + 1].c_str()); o.a = atoi(fl[at + 2].c_str()); o.b = atoi(fl[at + 3].c_str()); o.v = atoi(fl[at + 4].c_str()); o.w = atoi(fl[at + 5].c_str()); return true; };
                 uint64_t cs = strtoull(fl[2].c_str(), nullptr, 10); size_t oi = strtoull(fl[3].c_str(), nullptr, 10);
